@@ -19,7 +19,10 @@ PY = "/venv/bin/python"
 def sh(cmd, cwd=None, env=None, timeout=3600):
     e = dict(os.environ)
     e.update(env or {})
-    p = subprocess.run(cmd, cwd=cwd, env=e, capture_output=True, text=True, timeout=timeout, shell=isinstance(cmd, str))
+    try:
+        p = subprocess.run(cmd, cwd=cwd, env=e, capture_output=True, text=True, timeout=timeout, shell=isinstance(cmd, str))
+    except subprocess.TimeoutExpired as exc:
+        return 124, "TIMEOUT after %ss" % timeout
     return p.returncode, p.stdout + p.stderr
 
 
@@ -33,12 +36,12 @@ def confirm(patch, demo):
     d = scratch_copy()
     try:
         repo = d + "/repo"
-        rc0, out0 = sh([PY, demo], env={"PYTHONPATH": repo, "PYTHONDONTWRITEBYTECODE": "1"}, cwd=d)
+        rc0, out0 = sh([PY, demo], env={"PYTHONPATH": repo, "PYTHONDONTWRITEBYTECODE": "1"}, cwd=d, timeout=300)
         rc, out = sh("patch -p1 -s < %s" % patch, cwd=repo)
         if rc != 0:
             return {"applies": False, "log": out[-500:]}
-        rct, outt = sh([PY, "-m", "pytest", "-q", "-p", "no:cacheprovider"], cwd=repo)
-        rc1, out1 = sh([PY, demo], env={"PYTHONPATH": repo, "PYTHONDONTWRITEBYTECODE": "1"}, cwd=d)
+        rct, outt = sh([PY, "-m", "pytest", "-q", "-p", "no:cacheprovider"], cwd=repo, timeout=900)
+        rc1, out1 = sh([PY, demo], env={"PYTHONPATH": repo, "PYTHONDONTWRITEBYTECODE": "1"}, cwd=d, timeout=300)
         return {"applies": True, "tests": outt.strip().splitlines()[-1], "tests_pass": rct == 0,
                 "demo_without_patch_rc": rc0, "demo_with_patch_rc": rc1, "demo_fail_output": out1.strip()[-400:]}
     finally:
